@@ -27,8 +27,12 @@ func vList(e ...any) any     { return map[string]any{"l": nonNil(e)} }
 func vTuple(e ...any) any    { return map[string]any{"t": nonNil(e)} }
 func vRange(a, b, c int) any { return map[string]any{"r": []any{a, b, c}} }
 
-// vElems is "s".elems(): an iterable of one-character strings that has no length.
+// vElems is "s".elems(): a sequence of one-character strings.
 func vElems(s string) any { return map[string]any{"e": s} }
+
+// vCodepoints is "s".codepoints(): an iterable of one-character strings that has no length
+// (ASCII only, so the elements are those of elems()).
+func vCodepoints(s string) any { return map[string]any{"cp": s} }
 func vFn(name string) any { return map[string]any{"f": name} }
 func vDict(kv ...any) any {
 	pairs := []any{}
@@ -121,6 +125,13 @@ func (h *helpers) toValue(x any) starlark.Value {
 			}
 			return r
 		}
+		if v, ok := x["cp"]; ok {
+			r, err := starlark.Call(h.th, h.g["codepoints_of"], starlark.Tuple{starlark.String(v.(string))}, nil)
+			if err != nil {
+				fw.Fatal("c13: codepoints: %v", err)
+			}
+			return r
+		}
 		if v, ok := x["d"]; ok {
 			d := new(starlark.Dict)
 			for _, p := range v.([]any) {
@@ -164,7 +175,7 @@ func typeOfTagged(x any) string {
 	case string:
 		return "string"
 	case map[string]any:
-		for _, k := range []struct{ k, t string }{{"b", "bytes"}, {"l", "list"}, {"t", "tuple"}, {"r", "range"}, {"e", "string.elems"}, {"d", "dict"}, {"f", "function"}, {"absent", "absent"}} {
+		for _, k := range []struct{ k, t string }{{"b", "bytes"}, {"l", "list"}, {"t", "tuple"}, {"r", "range"}, {"e", "string.elems"}, {"cp", "string.codepoints"}, {"d", "dict"}, {"f", "function"}, {"absent", "absent"}} {
 			if _, ok := x[k.k]; ok {
 				return k.t
 			}
@@ -319,6 +330,7 @@ def persist(x, u):
     o = n + x
     return [x, u, a, b, c, d, e, f, g, h, i, j, k, m, n, o]
 def elems_of(s): return s.elems()
+def codepoints_of(s): return s.codepoints()
 def k_neg(x): return -x
 def k_first(t): return t[0]
 `
